@@ -110,3 +110,116 @@ def observe_accept(served, ts, own, proposals, peer_max):
                  answers=[(i.context_id, i.result_reason, str(i.ts_sub_item.name)) for i in (ac.variable_items[1:-1] if ac else [])],
                  table=[(i, str(c), str(t)) for i, c, t in table], new_max=acc.max_pdu_length, dispatch_ok=dispatch_ok)
     return term, human
+
+
+# ---------------------------------------------------------------------------- requester side
+class ReplyDul(impl.StubDul):
+    def __init__(self, reply_fn):
+        impl.StubDul.__init__(self)
+        self.reply_fn = reply_fn
+
+    def receive(self, timeout):
+        return self.reply_fn(self.sent[-1])
+
+
+def scu_service(asce, ctx, *a):
+    return (ctx.id, str(ctx.sop_class), str(ctx.supported_ts))
+
+
+def make_entity(calls, ts, own):
+    """calls: list of ('scu'|'scp', [classes]).  Returns a real AE (not listening)."""
+    from pynetdicom2 import applicationentity
+
+    class Svc(object):
+        def __init__(self, classes):
+            self.sop_classes = list(classes)
+
+        def __call__(self, *a):
+            return scu_service(*a)
+    ae = applicationentity.AE('LOCAL', 0, supported_ts=ts, max_pdu_length=own, bind_and_activate=False)
+    try:
+        for kind, classes in calls:
+            if kind == 'scu':
+                ae.add_scu(Svc(classes), list(classes))
+            else:
+                ae.add_scp(Svc(classes))
+    finally:
+        ae.server_close()
+    return ae
+
+
+def make_ac(rq, answers, peer_max, first_sub=None):
+    """answers: dict id -> (result, ts)"""
+    from pynetdicom2 import pdu, userdataitems
+    items = [pdu.ApplicationContextItem('1.2.840.10008.3.1.1.1')]
+    for cid, (res, ts) in answers:
+        items.append(pdu.PresentationContextItemAC(cid, res, pdu.TransferSyntaxSubItem(ts)))
+    items.append(pdu.UserInformationItem([userdataitems.MaximumLengthSubItem(peer_max)]))
+    return pdu.AAssociateAcPDU(rq.called_ae_title, rq.calling_ae_title, items)
+
+
+def observe_request(calls, ts, own, answer_fn, peer_max, lookups_extra=()):
+    from pynetdicom2 import asceprovider, exceptions
+    ae = make_entity(calls, ts, own)
+    ctxs = [(k, str(v.sop_class)) for k, v in ae.context_def_list.items()]
+    ts_order = [str(t) for t in ae.supported_ts]
+    assoc = object.__new__(asceprovider.AssociationRequester)
+    assoc.ae = ae
+    assoc.max_pdu_length = own
+    assoc.accepted_contexts = {}
+    assoc.association_established = False
+    assoc.context_def_list = ae.copy_context_def_list()
+    assoc.remote_ae = dict(address='127.0.0.1', port=104, aet='REMOTE')
+    assoc.sop_classes_as_scu = {}
+    holder = {}
+
+    def reply(rq):
+        holder['ac'] = make_ac(rq, answer_fn(ctxs, ts_order), peer_max)
+        return holder['ac']
+    assoc.dul = ReplyDul(reply)
+    err = None
+    try:
+        assoc.request()
+    except Exception as e:  # noqa
+        err = type(e).__name__
+    rq = assoc.dul.sent[0] if assoc.dul.sent else None
+    encodes = False
+    if rq is not None:
+        try:
+            rq.encode()
+            encodes = True
+        except Exception:
+            encodes = False
+    usable = sorted([(k, str(v.sop_class), str(v.supported_ts)) for k, v in assoc.accepted_contexts.items()])
+    scu_classes = [str(c) for c in ae.supported_scu.keys()]
+    lookups = []
+    for cls in sorted(set([c for _k, c in ctxs] + list(lookups_extra))):
+        try:
+            f = assoc.get_scu(cls)
+            r = f()
+            lookups.append((cls, (r[0], r[2])))
+        except exceptions.ClassNotSupportedError:
+            lookups.append((cls, None))
+    user_info = [('MaxLen', 0, 4, own), ('ImplClass', 0, str(asceprovider.IMPLEMENTATION_UID).encode())]
+    for c in ae.supported_scp.keys():
+        user_info.append(('RoleSel', 0, str(c).encode(), 0, 1))
+    ac = holder.get('ac')
+    term = '(mkrc %s %s %s %s %s %d %s %s %s %s %s %s %d %s)' % (
+        clist([clist([cbytes(c.encode()) for c in classes]) for _k, classes in calls]),
+        clist([cbytes(c.encode()) for c in scu_classes]),
+        clist([cbytes(t.encode()) for t in ts_order]),
+        cbytes(b'REMOTE'), cbytes(b'LOCAL'), own,
+        clist([pm.c_sub(s) for s in user_info]),
+        clist(['(%d, %s)' % (k, cbytes(c.encode())) for k, c in ctxs]),
+        'None' if rq is None else '(Some %s)' % pm.c_pdu(pm.from_impl(rq)),
+        cbool(encodes),
+        pm.c_pdu(pm.from_impl(ac)) if ac is not None else '(RelRq 0 0)',
+        c_table(usable), assoc.max_pdu_length if isinstance(assoc.max_pdu_length, int) else 0,
+        clist(['(%s, %s)' % (cbytes(c.encode()), 'None' if r is None else '(Some (%d, %s))' % (r[0], cbytes(r[1].encode())))
+               for c, r in lookups]))
+    human = dict(calls=[(k, len(c)) for k, c in calls], n_contexts=len(ctxs), ts=ts, own=own, peer_max=peer_max,
+                 ids=[k for k, _c in ctxs][:8] + (['...', ctxs[-1][0]] if len(ctxs) > 8 else []),
+                 rq_encodes=encodes, error=err, usable=usable[:6],
+                 answers=[(i, r, t) for i, (r, t) in (answer_fn(ctxs, ts_order))][:8], lookups=lookups[:6],
+                 new_max=assoc.max_pdu_length)
+    return term, human
